@@ -58,6 +58,8 @@ class Scope(dict):
 
 def _copyval(v):
     """values are moved / copied on binding: records must not alias (`self` and `&mut` borrows are passed by reference and never go through here)"""
+    if isinstance(v, Node) or (isinstance(v, tuple) and len(v) == 3 and v[0] == "closure"):
+        return v            # syntax and closures are values that are never mutated
     if isinstance(v, dict) and not v.get("__ref"):
         return {k: _copyval(x) for k, x in v.items()}
     if isinstance(v, tuple):
@@ -161,6 +163,9 @@ class Interp:
             self.bind(pat["pat"], v, env)
         elif k == "p_wild":
             pass
+        elif k in ("p_struct", "p_ref"):
+            if not self.match_pat(pat, v, env):
+                raise NotPure("irrefutable pattern did not match")
         else:
             raise NotPure("pattern kind " + k)
 
@@ -202,6 +207,16 @@ class Interp:
             return all(self.match_pat(p, x, env) for p, x in zip(pat["elems"], v))
         if k in ("p_ref", "p_type"):
             return self.match_pat(pat["pat"], v, env)
+        if k == "p_struct":
+            # `Type { a, b: pat, .. }` against a record (the type name of a record is not checked: the program type-checks)
+            if not isinstance(v, dict):
+                raise NotPure("struct pattern against a non-record")
+            for f in pat["fields"]:
+                if f["name"] not in v:
+                    raise NotPure("struct pattern field " + str(f["name"]))
+                if not self.match_pat(f["pat"], v[f["name"]], env):
+                    return False
+            return True
         if k == "p_or":
             return any(self.match_pat(c, v, env) for c in pat["cases"])
         if k == "p_lit":
@@ -217,7 +232,10 @@ class Interp:
             if not self.match_pat(p, a, env):
                 raise NotPure("closure pattern")
         b = node["body"]
-        return self.block(b, env, depth) if b.k == "block" else self.ev(b, env, depth)
+        try:
+            return self.block(b, env, depth) if b.k == "block" else self.ev(b, env, depth)
+        except _Return as r:
+            return r.v          # `return` inside a closure leaves the closure
 
     def run_stmts(self, stmts, env, depth=0):
         """execute a statement list in place (env is mutated by lets)"""
@@ -405,6 +423,12 @@ class Interp:
                     return self.extern[name](*args)
                 if name in ("from",) and len(args) == 1:
                     return args[0]
+                if "::" not in f["path"] and f["path"] in env:
+                    fv = env[f["path"]]
+                    if isinstance(fv, tuple) and len(fv) == 3 and fv[0] == "closure":
+                        return self.apply_closure(fv, args, depth)          # a local closure called by its name
+                    if callable(fv):
+                        return fv(*args)
                 try:
                     target = self.ast.fn(self.file, name, required=False)
                 except Exception:
@@ -592,6 +616,29 @@ class Interp:
         if k == "macro":
             if n["path"] in ("debug_assert", "debug_assert_eq", "debug_assert_ne"):
                 return None
+            if n["path"] == "matches" and isinstance(n.get("args"), list) and len(n["args"]) == 2:
+                # matches!(e, A | B | ..) over literals and unit variants (no guard): the alternatives parse as a `|` chain
+                v = self.ev(n["args"][0], env, depth)
+                leaves, todo = [], [n["args"][1]]
+                while todo:
+                    x = todo.pop()
+                    if isinstance(x, Node) and x.k == "binary" and x["op"] == "|":
+                        todo += [x["r"], x["l"]]
+                    elif isinstance(x, Node) and x.k == "paren":
+                        todo.append(x["e"])
+                    else:
+                        leaves.append(x)
+                for x in leaves:
+                    if isinstance(x, Node) and x.k == "lit":
+                        if self.ev(x, env, depth) == v:
+                            return True
+                    elif isinstance(x, Node) and x.k == "path" and "::" in x["path"] and x["path"].split("::")[-1][:1].isupper():
+                        nm = x["path"].split("::")[-1]
+                        if (nm == "None" and v is None) or (isinstance(v, tuple) and len(v) == 3 and v[0] == "variant" and v[1] == nm and not v[2]):
+                            return True
+                    else:
+                        raise NotPure("matches! alternative " + up(x)[:40])
+                return False
             hook = self.extern.get("macro")
             if hook is not None:
                 if "repeat" in n and isinstance(n["repeat"], dict):
